@@ -30,6 +30,8 @@ use fastrace::verif;
 use fh_core::*;
 
 const OP_TIMEOUT: Duration = Duration::from_secs(30);
+/// true in the `fh-off` crate, which compiles this file against fastrace without `enable`
+const OFF: bool = cfg!(feature = "off");
 
 // ---------------------------------------------------------------------------------- globals
 
@@ -40,6 +42,52 @@ static CLOSURE_CALLS: Mutex<u64> = Mutex::new(0);
 
 thread_local! {
     static IS_COLLECTOR: Cell<bool> = const { Cell::new(false) };
+    /// armed by the `tlsProbe` op: its destructor calls the tracing API while the thread's
+    /// local storage is being torn down
+    static PROBE: std::cell::RefCell<Option<Probe>> = const { std::cell::RefCell::new(None) };
+}
+
+static PROBE_PANICKED: std::sync::atomic::AtomicBool = std::sync::atomic::AtomicBool::new(false);
+
+struct Probe {
+    held: Option<Span>,
+}
+
+impl Drop for Probe {
+    fn drop(&mut self) {
+        let held = self.held.take();
+        let r = catch_unwind(AssertUnwindSafe(move || {
+            let _ = SpanContext::current_local_parent();
+            let l = LocalSpan::enter_with_local_parent("tls-local").with_property(|| ("k", "v"));
+            LocalSpan::add_event(Event::new("tls-ev"));
+            LocalSpan::add_property(|| ("k", "v"));
+            drop(l);
+            let c = LocalCollector::start();
+            let _ = c.collect();
+            let s = Span::enter_with_local_parent("tls-span");
+            let g = s.set_local_parent();
+            drop(g);
+            drop(s);
+            if let Some(h) = held {
+                h.add_property(|| ("k", "v"));
+                h.add_event(Event::new("tls-ev2"));
+                let _ = SpanContext::from_span(&h);
+                let ch = Span::enter_with_parent("tls-child", &h);
+                let g = ch.set_local_parent();
+                let _l = LocalSpan::enter_with_local_parent("tls-local2");
+                drop(_l);
+                drop(g);
+                drop(ch);
+                h.cancel();
+                drop(h);
+            }
+            let r = Span::root("tls-root", SpanContext::new(TraceId(1), SpanId(1)).sampled(false));
+            drop(r);
+        }));
+        if r.is_err() {
+            PROBE_PANICKED.store(true, std::sync::atomic::Ordering::SeqCst);
+        }
+    }
 }
 
 fn take_span(v: &str) -> Option<Span> {
@@ -182,7 +230,10 @@ fn mk_event(name: String, props: &str) -> Option<Event> {
         Some(e)
     } else {
         let p = parse_props(props)?;
-        Some(e.with_properties(|| p))
+        Some(e.with_properties(|| {
+            *CLOSURE_CALLS.lock().unwrap() += 1;
+            p
+        }))
     }
 }
 
@@ -369,6 +420,11 @@ fn thread_op(k: usize, guards: &mut Vec<G>, w: &[&str]) -> Option<String> {
                 }
             }
         }
+        ["tlsProbe", v] => {
+            let held = take_span(v);
+            PROBE.with(|p| *p.borrow_mut() = Some(Probe { held }));
+            "ok".into()
+        }
         ["spam", n] => {
             let n: usize = n.parse().ok()?;
             for _ in 0..n {
@@ -505,7 +561,11 @@ fn run_case() {
     let finish_cycle = |reporter_set: bool| -> String {
         // after Done: the report, if a reporter is installed
         if !reporter_set {
-            return "rep none".into();
+            // no reporter (or tracing compiled out): the reporter must not have been called
+            return match rep_rx.try_recv() {
+                Ok(_) => "rep unexpected-report".into(),
+                Err(_) => "rep none".into(),
+            };
         }
         match rep_rx.recv_timeout(OP_TIMEOUT) {
             Ok(rs) => format!("rep {}", show_records(&rs, true)),
@@ -535,11 +595,16 @@ fn run_case() {
                             .report_interval(Duration::from_secs(3600 * 24 * 365))
                             .cancelable(*c == "1"),
                     );
-                    reporter_set = true;
-                    // the background collector runs one cycle at start-up; wait it out
-                    match rep_rx.recv_timeout(OP_TIMEOUT) {
-                        Ok(_) => "ok".into(),
-                        Err(_) => "timeout waiting for the start-up cycle".into(),
+                    if OFF {
+                        // compiled out: set_reporter is a no-op, nothing will ever be reported
+                        "ok".into()
+                    } else {
+                        reporter_set = true;
+                        // the background collector runs one cycle at start-up; wait it out
+                        match rep_rx.recv_timeout(OP_TIMEOUT) {
+                            Ok(_) => "ok".into(),
+                            Err(_) => "timeout waiting for the start-up cycle".into(),
+                        }
                     }
                 }
             }
@@ -593,6 +658,19 @@ fn run_case() {
                     }
                 }
             }
+            ["procstats"] => {
+                let mut n = 0;
+                if let Ok(rd) = std::fs::read_dir("/proc/self/task") {
+                    for e in rd.flatten() {
+                        if let Ok(c) = std::fs::read_to_string(e.path().join("comm")) {
+                            if c.starts_with("fastrace-") {
+                                n += 1;
+                            }
+                        }
+                    }
+                }
+                format!("proc closures={} fastrace_threads={}", *CLOSURE_CALLS.lock().unwrap(), n)
+            }
             ["stats"] => {
                 if in_cycle {
                     "bad-op cycle in progress".into()
@@ -624,7 +702,12 @@ fn run_case() {
                                     let j = th.join.take();
                                     threads.remove(&k);
                                     match j.map(|j| j.join()) {
-                                        Some(Ok(())) => "ok".into(),
+                                        Some(Ok(()))
+                                            if !PROBE_PANICKED
+                                                .load(std::sync::atomic::Ordering::SeqCst) =>
+                                        {
+                                            "ok".into()
+                                        }
                                         _ => "panic".into(),
                                     }
                                 }
